@@ -3,6 +3,7 @@ import PMH.Proofs.Collision
 import PMH.Proofs.FYSwapSMH
 import PMH.Proofs.SMH2Coll
 import PMH.Proofs.MseLaw
+import PMH.Proofs.ExchLaw
 /-!
 # C03 — SuperMinHash estimates the Jaccard index without bias (exact finite statement), and the
 single-item sketch is a permutation of integer parts with the drawn fractional parts
@@ -214,5 +215,47 @@ theorem mse_bound_of_nonpositive_correlation {α : Type*} {m : ℕ} (hm : 0 < m)
     ∑ ω ∈ Ω, ((U : ℤ) * ((Finset.univ.filter fun k => C k ω).card : ℤ) - (m : ℤ) * I) ^ 2
       ≤ (m : ℤ) * Ω.card * I * ((U : ℤ) - I) :=
   MseLaw.mse_le_ratio hm Ω C I U hU H1 H2
+
+
+/-! ### beyond uniform finite families: ANY exchangeable law gives the Jaccard index  (`Proofs/ExchLaw.lean`)
+
+The counting theorems above are the uniform law on a finite relabelling-closed family.  The same holds for every
+relabelling-invariant WEIGHTING of such a family, and for every exchangeable probability measure on assignments
+(in particular i.i.d. coordinates) — the selection is the arg-min of an equivariant tie-free score, which is what a
+SuperMinHash / SuperMinHash2 / densified / equal-weight ProbMinHash position is (refinement theorems). -/
+section Exch
+open MeasureTheory PMH.CS PMH.ExchLaw
+open scoped ENNReal
+
+/-- weighted finite form: `Σ_{collision} w · |A ∪ B| = |A ∩ B| · Σ w` for relabelling-invariant weights -/
+theorem collision_weight_is_jaccard {ι Rnd : Type} {K' : Type*} [Fintype ι] [DecidableEq ι] [Semiring K'] [Inhabited ι]
+    {V Pos : Type} [LinearOrder V] (Ω : Finset (ι → Rnd)) (hΩ : PermClosed Ω) (w : (ι → Rnd) → K')
+    (hw : ∀ r ∈ Ω, ∀ σ : Equiv.Perm ι, w (r ∘ ⇑σ.symm) = w r)
+    (v : (ι → Rnd) → Pos → ι → V) (p : Pos) (hinj : ∀ r ∈ Ω, Function.Injective (v r p))
+    (hequiv : ∀ r ∈ Ω, ∀ (σ : Equiv.Perm ι) (d : ι), v (r ∘ ⇑σ.symm) p (σ d) = v r p d)
+    {A B : Finset ι} (hA : A.Nonempty) (hB : B.Nonempty) (hAB : A ∪ B = Finset.univ) :
+    (∑ r ∈ Ω.filter (fun r => argmin (v r p) A = argmin (v r p) B), w r) * ((A ∪ B).card : K')
+      = ((A ∩ B).card : K') * ∑ r ∈ Ω, w r :=
+  weighted_collision_prob_eq_jaccard Ω hΩ w hw v p hinj hequiv hA hB hAB
+
+/-- measure form: under any exchangeable probability law on the assignments, a.s. tie-free equivariant scores -/
+theorem collision_probability_is_jaccard_exchangeable {ι : Type} {Rnd : Type*} [MeasurableSpace Rnd] [Fintype ι]
+    [DecidableEq ι] [Inhabited ι] {V : Type} [LinearOrder V]
+    (μ : Measure (ι → Rnd)) [IsProbabilityMeasure μ] (hμ : Exchangeable μ) (v : (ι → Rnd) → ι → V)
+    (hmeas : ∀ d, NullMeasurableSet {x | argmin (v x) Finset.univ = d} μ)
+    (hinj : ∀ᵐ x ∂μ, Function.Injective (v x))
+    (hequiv : ∀ σ : Equiv.Perm ι, ∀ᵐ x ∂μ, ∀ d, v (x ∘ ⇑σ.symm) (σ d) = v x d)
+    {A B : Finset ι} (hA : A.Nonempty) (hB : B.Nonempty) (hAB : A ∪ B = Finset.univ) :
+    μ {x | argmin (v x) A = argmin (v x) B} = ((A ∩ B).card : ℝ≥0∞) / ((A ∪ B).card : ℝ≥0∞) :=
+  exch_argmin_collision μ hμ v hmeas hinj hequiv hA hB hAB
+
+/-- i.i.d. coordinates are exchangeable -/
+theorem iid_is_exchangeable {ι : Type} {Rnd : Type*} [MeasurableSpace Rnd] [Fintype ι] [DecidableEq ι]
+    (ν : Measure Rnd) [SigmaFinite ν] : Exchangeable (Measure.pi (fun _ : ι => ν)) := exchangeable_pi ν
+
+/-- fully concrete: three items with i.i.d. uniform [0,1] hash values, A = {0,1}, B = {1,2}: probability 1/3 -/
+example : Measure.pi (fun _ : Fin 3 => ExchLaw.unif01)
+      {x | argmin x ({0, 1} : Finset (Fin 3)) = argmin x ({1, 2} : Finset (Fin 3))} = 1 / 3 := unif01_example
+end Exch
 
 end PMH.C03
